@@ -114,11 +114,39 @@ func placementAfterCatchUp(rec *mon.Recorder, c int) {
 		rec.Inconclusive(fmt.Sprintf("%s: node %d did not come back: %v", desc, lag.Id, err))
 		return
 	}
-	if cl.WaitFor(30*time.Second, func() bool { _, ok := lag.In.ClusterConn.Nodes()[5]; return ok }) != nil {
-		rec.Inconclusive(fmt.Sprintf("%s: node %d did not learn of node 5", desc, lag.Id))
+	// The member has caught up when it has applied the membership log up to the commit index the others report now
+	// (every change made so far was acknowledged, hence committed, by then). Learning of node 5 alone is not that: a
+	// member that re-joins is told of it in the join reply, before the leader's snapshot has reached it.
+	var target uint64
+	for _, n := range up {
+		n := n
+		cl.Guard(3*time.Second, func() {
+			if c := n.In.ZeroGroup.VerifStatus().Commit; c > target {
+				target = c
+			}
+		})
+	}
+	caughtUp := func() bool {
+		if _, ok := lag.In.ClusterConn.Nodes()[5]; !ok {
+			return false
+		}
+		return lag.In.ZeroGroup.VerifStatus().Applied >= target
+	}
+	if cl.WaitFor(30*time.Second, caughtUp) != nil {
+		diag := ""
+		for _, m := range cl.Nodes {
+			if m.In != nil && m.In.ZeroGroup != nil && !m.Dead() {
+				m := m
+				cl.Guard(2*time.Second, func() {
+					st := m.In.ZeroGroup.VerifStatus()
+					diag += fmt.Sprintf(" | node %d book=%v zero{term=%d lead=%d commit=%d applied=%d %s}", m.Id, m.In.ClusterConn.Nodes(), st.Term, st.Lead, st.Commit, st.Applied, st.RaftState)
+				})
+			}
+		}
+		rec.Inconclusive(fmt.Sprintf("%s: node %d did not catch up with the membership log (index %d) and learn of node 5 (started with -join false: %v)%s", desc, lag.Id, target, lag.NoRejoin, diag))
 		return
 	}
-	time.Sleep(300 * time.Millisecond)
+	rec.Count("members_caught_up_before_placing", 1)
 	replay := map[string]interface{}{"case": c, "seed": rec.Seed(), "desc": desc, "lag": lag.Id, "gone": gone.Id}
 	for _, R := range []uint32{1, 3, 8} {
 		var d *storage.Dataset
